@@ -306,7 +306,7 @@ pub fn run(ctx: &Ctx) -> i32 {
     let acc = par::sweep(
         total,
         128,
-        |_| Interp::new().expect("interpreter"),
+        |_| Interp::must_new(),
         |it, acc: &mut Acc, i| {
             let c = &cs_ref[i as usize];
             let r = judge(it, &c.text);
